@@ -14,8 +14,15 @@ RULE = ('states = E1 states (<=1 edit quick / full alphabet + 2 edits thorough, 
 ASSUMPTIONS = ['only presentations within the deviation bound of a seed are explored']
 
 
+SPLIT = {'stdnum.mac': 12}      # slow validators (4 ms registry scan with validate_manufacturer): states spread over work items
+
+
 def plan(ctx):
-    return [(name, ctx['tier']) for name in core.modules()]
+    out = []
+    for name in core.modules():
+        k = SPLIT.get(name, 1)
+        out += [(name, ctx['tier'], part, k) for part in range(k)]
+    return out
 
 
 def _eval(res, name, m, x, opts, dev):
@@ -41,10 +48,13 @@ def _eval(res, name, m, x, opts, dev):
 
 
 def work(item):
-    name, tier = item
+    name, tier, part, nparts = item
     m = core.modules()[name]
     res = Result()
     states, transitions, sv = e1.module_states(name, tier)
+    if nparts > 1:
+        states = dict(list(states.items())[part::nparts])
+        transitions = transitions // nparts
     res['transitions'] = transitions
     optsets, unknown = option_sets(name, m.validate)
     n = acc = 0
@@ -61,7 +71,7 @@ def work(item):
     res['impl_execs'] = n + acc
     res['nontrivial'] = acc
     res['extra']['distinct_canonical_values'] = len(values)
-    res['extra']['modules_without_accepted_state'] = [name] if not acc else []
+    res['extra']['modules_without_accepted_state'] = [name] if not acc and nparts == 1 else []
     if sv:
         res['samples'].append({'module': name, 'input': sv[0][0], 'canonical': sv[0][1]})
     return res
